@@ -176,6 +176,12 @@ def pyfftw_call(array_in, array_out, direction='forward', axes=None,
         if wisdom:
             pyfftw.import_wisdom(wisdom)
 
+    # Multi-dimensional c2r transforms always destroy their input when
+    # executed, so they need to run on a copy
+    if (not array_in_copied and direction == 'backward' and halfcomplex and
+            array_in.ndim != 1):
+        array_in = array_in.copy()
+
     # A plan can only be executed on arrays with the memory layout it was
     # created for: pyfftw rejects an output with other strides, and it copies
     # an input with other strides into the array the plan was created with,
@@ -190,45 +196,39 @@ def pyfftw_call(array_in, array_out, direction='forward', axes=None,
                                        n=fftw_plan_in.output_alignment)):
         fftw_plan_in = None
 
-    # Copy input array if it hasn't been done yet and the planner is likely
-    # to destroy it. If we already have a plan, we don't have to worry.
+    # Planning with an effort above 'estimate' overwrites the arrays it is
+    # performed on. If we already have a plan, we don't have to worry.
     planner_destroys = _pyfftw_destroys_input(
         [planning_effort], direction, halfcomplex, array_in.ndim)
-    must_copy_array_in = fftw_plan_in is None and planner_destroys
-
-    if must_copy_array_in:
-        # Plan on a scratch array, also if `array_in` is already a copy,
-        # since planning overwrites the data that is transformed afterwards
-        plan_arr_in = np.empty_like(array_in)
-        # For in-place transforms, planning on `array_out` would destroy
-        # the input as well
-        plan_arr_out = plan_arr_in if array_out is array_in else array_out
-    else:
-        plan_arr_in = array_in
-        plan_arr_out = array_out
+    must_save_array_in = fftw_plan_in is None and planner_destroys
 
     # Do not allow the plan to destroy its input (`FFTW_DESTROY_INPUT`), it
     # is executed on the caller's array
     flags = [_flag_odl_to_pyfftw(planning_effort)]
 
-    # Multi-dimensional c2r transforms always destroy their input when
-    # executed, so they need to run on a copy
-    if (not array_in_copied and direction == 'backward' and halfcomplex and
-            array_in.ndim != 1):
-        array_in = array_in.copy()
-
     if fftw_plan_in is None:
         if threads is None:
-            if plan_arr_in.size <= 4096:  # Trade-off wrt threading overhead
+            if array_in.size <= 4096:  # Trade-off wrt threading overhead
                 threads = 1
             else:
                 threads = cpu_count()
 
+        # A plan is specific to the strides and the alignment of the arrays
+        # it is created with, which scratch arrays do not share in general
+        # (views). Hence we plan on the arrays themselves and restore the
+        # input data afterwards (also for in-place transforms, where
+        # `array_out` is `array_in`).
+        if must_save_array_in:
+            saved_in = array_in.copy()
+
         fftw_plan = pyfftw.FFTW(
-            plan_arr_in, plan_arr_out,
+            array_in, array_out,
             direction=_flag_odl_to_pyfftw(direction),
             flags=flags, planning_timelimit=planning_timelimit,
             threads=threads, axes=axes)
+
+        if must_save_array_in:
+            array_in[...] = saved_in
     else:
         fftw_plan = fftw_plan_in
 
